@@ -1108,7 +1108,10 @@ fn run_scenario(sc: &Value, cfg: &Cfg, case_no: u64) -> Result<Outcome, String> 
 					x if x.starts_with("hex:") => it.seek(&unhex(&x[4..])),
 					x => it.seek(&key_bytes(x)),
 				};
-				let at = if it.valid() { obs_json(&cur(&it)).to_string() } else { "-".to_string() };
+				let mut at = if it.valid() { obs_json(&cur(&it)).to_string() } else { "-".to_string() };
+				if it.valid() && it.key().is_tombstone() {
+					at.push_str(&format!(" value()={:?}", it.value().map_err(|e| e.to_string())));
+				}
 				println!("PROGRAM [{}] {step} -> {:?} at {at}", tw.name, r.map_err(|e| e.to_string()));
 			}
 			for k in ["k1", "k2", "k3"] {
